@@ -585,55 +585,9 @@ func checkC13(c *Ctx, r *Report) {
 	if fn := c.Func(pkg, "(framesFilter).Want"); fn == nil {
 		r.Fail("C13-filter", "anchor framesFilter.Want not found")
 	} else {
-		cmp := map[string]bool{}
-		eachInstr(fn, func(_ *ssa.BasicBlock, _ int, in ssa.Instruction) {
-			b, ok := in.(*ssa.BinOp)
-			if !ok || (b.Op != token.EQL && b.Op != token.NEQ) {
-				return
-			}
-			x, y := pathOf(b.X), pathOf(b.Y)
-			for _, pair := range [][2]string{{x, y}, {y, x}} {
-				switch {
-				case strings.HasSuffix(pair[0], "f.port") && strings.HasSuffix(pair[1], ".Port"):
-					cmp["port"] = true
-				case strings.HasSuffix(pair[0], "f.call") && strings.HasSuffix(pair[1], ".From"):
-					cmp["from"] = true
-				case strings.HasSuffix(pair[0], "f.call") && strings.HasSuffix(pair[1], ".To"):
-					cmp["to"] = true
-				case strings.HasSuffix(pair[0], ".DataKind"):
-					cmp["kind"] = true
-				}
-			}
-		})
-		// port 0 is a port like any other: "no port given" must be something that is not a port
-		// number (a nil pointer, a separate flag) - never a value of the port field itself
-		eachInstr(fn, func(_ *ssa.BasicBlock, _ int, in ssa.Instruction) {
-			b, ok := in.(*ssa.BinOp)
-			if !ok || (b.Op != token.EQL && b.Op != token.NEQ) {
-				return
-			}
-			x, y := pathOf(b.X), pathOf(b.Y)
-			if !(strings.HasSuffix(x, "f.port") && strings.HasSuffix(y, ".Port")) && !(strings.HasSuffix(y, "f.port") && strings.HasSuffix(x, ".Port")) {
-				return
-			}
-			sentinel := ""
-			for _, cd := range condsAt(b.Block()) {
-				g, ok := cd.V.(*ssa.BinOp)
-				if !ok || isNilConst(g.Y) || isNilConst(g.X) {
-					continue
-				}
-				if _, isC := constInt(g.Y); isC && strings.HasSuffix(pathOf(g.X), "f.port") {
-					sentinel = c.exprAt(fn, g.Pos())
-					if sentinel == "" {
-						sentinel = g.String()
-					}
-				}
-			}
-			r.Check("C13-filter", fnName(fn), "every port number is filtered", c.pos(b.Pos()), sentinel == "",
-				"the port comparison is made whenever a port was given (presence is not encoded in the port number)", "the port comparison is skipped for a particular port number ("+sentinel+"): an application registered on that port (port 0 is the first radio port) receives the frames of every other port - foreign data in the stream, a foreign disconnect ends Read")
-		})
-		r.Check("C13-filter", fnName(fn), "predicate compares port, callsigns and kind", c.pos(fn.Pos()), cmp["port"] && cmp["from"] && cmp["to"] && cmp["kind"],
-			"Want compares *f.port with frame.Port, f.call with frame.From and frame.To, and the kinds", fmt.Sprintf("Want no longer compares all of port/from/to/kind (%v)", cmp))
+		// what Want compares, by role: the receiver's and the parameter's fields, wherever the
+		// comparison is written (ip_h3.go)
+		h3WantRule(c, r, fn, pkg)
 	}
 
 	// ---- C13-crash
